@@ -20,7 +20,7 @@ RULE = (
 )
 ASSUMPTIONS = c01.ASSUMPTIONS
 DOC_OPTS = {"max_frags": 6, "w_spread": 30, "w_inline": 16, "w_repeat": 10, "max_nodes": 30}
-REQUESTS_PER_ENGINE = 4
+REQUESTS_PER_ENGINE = 6
 
 
 def features(doc):
